@@ -258,6 +258,34 @@ rewrite /aug_init_med /aug_init_mse /= -{1}[r]vsubmxK mul_block_col !mul0mx addr
 by rewrite addr0 add0r.
 Qed.
 
+Lemma blockF q k (Tm : 'M[F]_n) (R : 'M[F]_(n, k)) (Sv : 'M[F]_k) (Pm : 'M[F]_(n, nu)) (Su : 'M[F]_nu)
+    (Zs : 'M[F]_(q, n)) :
+  row_mx Zs (0 : 'M_(q, k))
+    *m (block_mx Tm R 0 1%:M *m block_mx 0 0 0 Sv *m (block_mx Tm R 0 1%:M)^T + col_mx Pm 0 *m Su *m (col_mx Pm 0)^T)
+    *m (row_mx Zs (0 : 'M_(q, k)))^T
+  = Zs *m (R *m Sv *m R^T + Pm *m Su *m Pm^T) *m Zs^T.
+Proof.
+rewrite mulmx_block tr_block_mx mulmx_block mul_col_mx tr_col_mx mul_col_row.
+have simp := (trmx0, trmx1, mul0mx, mulmx0, mul1mx, mulmx1, add0r, addr0).
+rewrite !simp add_block_mx !simp tr_row_mx mul_row_block !simp mul_row_col !simp.
+by [].
+Qed.
+
+(* the prediction MSE matrix of the first simulated column: the exogenized rows of
+   R Sigma_v R' + P Sigma_u P' (R = _generate_R(0), Sigma_v, Sigma_u the variances of the endogenized anticipated and
+   unanticipated shocks); "all_unit" asks for its invertibility, and for that of its later counterparts *)
+Lemma first_F (a0 : 'cV[F]_n) std_v c :
+  let Zs := mc_sel (c_mask c) Zxi in
+  f_F (kstep (imed a0) (imse std_v) (aug 0 c))
+  = Zs *m (genR 0%N *m cov_from_std M nv std_v *m (genR 0%N)^T
+           + P *m cov_from_std M nu (c_std_u c) *m P^T) *m Zs^T.
+Proof.
+move=> Zs; have sp := kf_step_spec (imed a0) (init_mse_sym std_v) (aug_ok 0 c).
+rewrite (sp_F sp) (sp_Q0 sp).
+have -> : p_H (aug 0 c) = 0 by [].
+rewrite !mul0mx addr0; exact: blockF.
+Qed.
+
 (* ---- _generate_R is the anticipated impact of the spread-out increments ---- *)
 
 Lemma mcolselE m k msk (A : 'M[F]_(m, k)) : (mc_sel msk A^T)^T = A *m (mc_sel msk (1%:M : 'M[F]_k)^T)^T.
@@ -570,3 +598,56 @@ Qed.
 End Run.
 
 End PlansProofs.
+
+(* ---------------------------------------------------------------- *)
+(* non-vacuity: a concrete plan meets every hypothesis used above    *)
+(* ---------------------------------------------------------------- *)
+Section Example.
+Variable F : realFieldType.
+Variables (flog : F -> F) (flog2pi : F).
+Notation M := (MC flog flog2pi).
+Variables rho tau : F.
+
+(* x_t = rho x_{t-1} + e_t; one simulated period in which x is exogenized (target tau) and e endogenized
+   (unanticipated, std 1); nothing anticipated *)
+Definition ex_curr : seq nat := [:: 0%N].
+Definition ex_s : csys M 1 1 := @mkCsys M 1 1 (rho%:M) 1%:M 0.
+Definition ex_col : ccol M 1 0 ex_curr := @mkCcol M 1 0 ex_curr [:: true] (tau%:M) [:: 1] 0 0.
+Definition ex_inc : incidence := [:: [:: false]].
+Definition ex_vs : seq 'cV[F]_1 := [:: 0].
+Definition ex_Rx : nat -> 'M[F]_(1, 1) := fun=> 0.
+
+Lemma ex_sel k (A : 'M[F]_(1, k)) : mc_sel [:: true] A = A.
+Proof.
+rewrite mc_selE; apply/matrixP=> i j; rewrite !mxE.
+have [i' E] := @sel_ord_kept [:: true] 1 ord0 isT.
+have i0 : i' = 0%N.
+  case: i' E => // i'; rewrite /sel_ord drop_oversize //.
+  exact: leq_trans (size_mask_le _ _) _.
+by rewrite i0 in E; rewrite !ord1 /= E ord1.
+Qed.
+
+Lemma ex_rows k (A : 'M[F]_(1, k)) : mc_rows [:: 0%N] A = A.
+Proof. by apply/matrixP=> i j; rewrite (@mc_rows_entry _ _ _ _ _ _ ord0) ?ord1. Qed.
+
+Lemma ex_cov1 : cov_from_std M 1 [:: 1] = 1%:M :> 'M[F]_1.
+Proof. by apply/matrixP=> i j; rewrite !mxE !ord1 /= mul1r. Qed.
+
+Theorem ex_hypotheses :
+  let cols := [:: ex_col] in
+  [/\ size ex_vs = size ex_inc, size cols = size ex_inc,
+      all_unit (run_fs ex_s ex_Rx ex_vs ex_inc 0 [::] cols) &
+      impact_nonsingular ex_s ex_Rx ex_inc cols].
+Proof.
+split=> //.
+- rewrite /run_fs /=; split=> //.
+  have /= -> := @first_F F flog flog2pi 1 1 0 ex_curr ex_s ex_Rx ex_vs ex_inc 0 [::] ex_col.
+  rewrite [X in X *m _ *m _^T + _]thinmx0 !mul0mx add0r.
+  have /= -> := ex_cov1.
+  by rewrite /ex_curr ex_rows ex_sel !mulmx1 trmx1 ?mulmx1 ?mul1mx unitmx1.
+- move=> [|du [|? ?]] w //= _ _ [h _]; split; last by rewrite [w]flatmx0.
+  move: h; rewrite /at_targets /= ex_rows ex_sel !mulmx0 !add0r mul1mx.
+  by rewrite /ex_Rx mul0mx !addr0 => -> d [<-|[]].
+Qed.
+
+End Example.
